@@ -1,5 +1,5 @@
 CONSTANTS N = 3  D = 1  MaxExtra = 2
-  ShapeIds = {"bent"}
+  ShapeIds = {"bent", "onesided"}
   Vals = {3}  Sparse = {FALSE, TRUE}
 INIT Init
 NEXT Next
